@@ -272,12 +272,12 @@ package syntax
 //@ spec func InSuffix(rs []SingleRange, i int, ch rune) bool = exists k int {mark(k)} {rs[k].First} :: i <= k && k < len(rs) && rs[k].First <= ch && ch <= rs[k].Last
 // ranges 0..n-1 are valid, ordered and separated by at least one rune
 //@ spec func PrefixSorted(rs []SingleRange, n int) bool = (forall a int {mark(a)} {rs[a].First} :: 0 <= a && a < n ==> 0 <= rs[a].First && rs[a].First <= rs[a].Last) &&
-//@     (forall a int, b int {mark(a), mark(b)} {rs[a].Last, rs[b].First} :: 0 <= a && a < b && b < n ==> rs[a].Last + 1 < rs[b].First)
+//@     (forall a int, b int {mark(a), mark(b)} :: 0 <= a && a < b && b < n ==> rs[a].Last + 1 < rs[b].First)
 // every range before n ends more than one rune before f
 //@ spec func AllBefore(rs []SingleRange, n int, f rune) bool = forall a int {mark(a)} {rs[a].Last} :: 0 <= a && a < n ==> rs[a].Last + 1 < f
 // ranges i.. are valid and ordered by First, none starts before f
 //@ spec func SuffixByFirst(rs []SingleRange, i int, f rune) bool = (forall k int {mark(k)} {rs[k].First} :: i <= k && k < len(rs) ==> f <= rs[k].First && rs[k].First <= rs[k].Last) &&
-//@     (forall a int, b int {mark(a), mark(b)} {rs[a].First, rs[b].First} :: i <= a && a < b && b < len(rs) ==> rs[a].First <= rs[b].First)
+//@     (forall a int, b int {mark(a), mark(b)} :: i <= a && a < b && b < len(rs) ==> rs[a].First <= rs[b].First)
 
 //@ func (c *CharSet) canonicalize()
 //@   props C16
